@@ -118,7 +118,7 @@ func hxTLSConnState(c *tls.Conn) tls.ConnectionState {
 var hxAuthTypes = []SMTPAuthType{SMTPAuthNoAuth, SMTPAuthPlain, SMTPAuthPlainNoEnc, SMTPAuthLogin, SMTPAuthLoginNoEnc, SMTPAuthCramMD5,
 	SMTPAuthXOAUTH2, SMTPAuthSCRAMSHA1, SMTPAuthSCRAMSHA256, SMTPAuthSCRAMSHA1PLUS, SMTPAuthSCRAMSHA256PLUS, SMTPAuthAutoDiscover, SMTPAuthCustom}
 
-var hxHosts = []string{"mail.example", "localhost", "127.0.0.1", "::1"}
+var hxHosts = []string{"mail.example", "localhost", "localhost.mail.example", "127.0.0.1", "::1", "LOCALHOST.example"}
 
 // hxAuthAny answers any AUTH exchange: one 334 challenge, then 235.
 func hxAuthAny(s *hxSrv, line string) {
@@ -234,7 +234,7 @@ func HarnessC07TLS() {
 		svAssert(cfg != nil && cfg.MinVersion >= tls.VersionTLS12, tag+"C07 MinVersion below TLS 1.2")
 	}
 	// cleartext chunks
-	localhost := host != "mail.example"
+	localhost := host == "localhost" || host == "127.0.0.1" || host == "::1"
 	noenc := at == SMTPAuthPlainNoEnc || at == SMTPAuthLoginNoEnc
 	for _, ch := range s.clear {
 		l := ch
